@@ -182,6 +182,11 @@ def all_templates(tier):
     for test_sh, cases, shs in sv:
         ts.append(("switchvalue", test_sh, cases, shs))
     ts += [("nested", k) for k in range(T.N_NESTED["quick" if tier == "quick" else "thorough"])]
+    for op in T.BINOPS:
+        for sa in [(3, True), (2, False)]:
+            for sb in [(1, False), (2, False)] if op in ("<<", ">>") else [(2, True), (1, False)]:
+                for side in (("r",) if op in ("<<", ">>") else ("l", "r")):
+                    ts.append(("dup-top-binop", op, sa, sb, side))
     for op in T.UNOPS:
         for sh in ([(1, False), (2, False), (2, True)] if tier == "quick" else [(0, False), (1, False), (2, False), (2, True), (3, True)]):
             for (lo_w, hi_w) in ((0, 1), (0, 2), (1, 0), (1, 1)):
